@@ -222,7 +222,7 @@ def run(ck):
                "(both strategies, 1..6 workers, failing requests, completion order inverted by delays) compared with the local-file "
                "query, threading.enumerate() checked after return. distinct by case")
     ck.regen()
-    ck.lean_props("C16", THEOREMS)
+    ck.lean_props("C16", THEOREMS, keep_lock=True)
     ck.lean_props("C16X", THEOREMS_X)
     q = ck.tier == "quick"
     lines, meta = [], []
